@@ -4,7 +4,9 @@ Theorems: coq/theories/Props/C16.v.
 Tie: (T) Gen/C16Gen.v regenerated from timeprocessing.py / base.py / main.py / __init__.py (constants, the shape of every
 pause_asap_eval call, the skip rule) and Gen/FuncTable.v (arities, DEPS) + (C) random sample histories evaluated on the real
 function objects (outputs, the pause deadline AND which arguments were evaluated, inputs being values / unavailable / disabled
-per sample) against the Coq model (vm_compute), against the Coq specification (Spec.v, ArgModel.v spec_o), and end to end: every-tick evaluation against evaluation gated by the real
+per sample) against the Coq model (vm_compute), against the Coq specification (Spec.v, ArgModel.v spec_o), end to end on REAL
+ports with a slow driver write under the real main.update / push_eval / eval queue on the virtual clock (c16_worker.py:
+hub-scheduled vs. forced-every-tick evaluation must leave the same value once the inputs are quiet), and end to end: every-tick evaluation against evaluation gated by the real
 main.handle_value_changes, with the function at top level and nested.
 """
 import asyncio
@@ -31,6 +33,8 @@ TRUSTED_BASE = [
     'harness/translate/functable.py (arities and DEPS of the fourteen functions)',
     'correspondence harness harness/props/c16.py: fake port registry over core.ports.get / get_all; the real function objects '
     'are driven with explicit EvalContext(port_values, now_ms); the real main.handle_value_changes decides which ticks evaluate',
+    'harness/props/c16_worker.py + harness/common/vloop.py: real core.ports.Port subclasses (source ports, an output port whose '
+    'write_value sleeps), real main.update / handle_value_changes / push_eval / _eval_loop / write queue on a virtual clock',
     'modelled, not verified: CPython numeric semantics (Base/PyNum.v), list.sort as the stable sorted permutation (no NaN), '
     'asyncio.gather (arguments are plain port values / literals here), the asyncio eval queue (an evaluation is assumed to '
     'finish within its tick, so has_pending_eval() is false)',
@@ -748,6 +752,95 @@ def probe_time_in_time(res, rng):
         'probed': len(TIME_IN_TIME), 'differ': bad}
 
 
+# ---------------------------------------------------------------------------------------------------- real ports, slow writes
+
+QUEUE_FUNCS = ['HELD', 'HELD', 'HELD', 'FREEZE', 'FREEZE', 'DELAY', 'DELAY', 'SAMPLE', 'DERIV', 'FMAVG', 'FMEDIAN']
+QUEUE_KEY = {'kind': 'pause', 'position': 'hub-eval-queue'}
+
+
+def gen_queue_scenario(rng):
+    """an expression on a real output port with a slow driver write; dependency changes land while a write is in progress and
+    an evaluation is queued behind it; then the inputs stay constant until everything has drained (harness/props/c16_worker.py)"""
+    f = rng.choice(QUEUE_FUNCS)
+    pars = [100, 150, 200, 300, 500]
+    if f == 'HELD':
+        expr, out_type, out_init = 'HELD($inp, %d, $par)' % rng.choice([1, 1, 0, 2]), 'boolean', True
+    elif f in ('FMAVG', 'FMEDIAN'):
+        expr, out_type, out_init = '%s($inp, %d, $par)' % (f, rng.choice([2, 3])), 'number', 7
+    else:
+        expr, out_type, out_init = '%s($inp, $par)' % f, 'number', 7
+    wlat = rng.choice([0, 100, 200, 400, 400, 400])
+    tick = rng.choice([20, 50, 50])
+    inp, par = rng.choice([0, 0, 1, 2]), rng.choice(pars)
+    events = []
+    t = rng.choice([60, 100, 100, 150])
+    cur_inp, cur_par = inp, par
+    for _ in range(rng.choice([2, 2, 3, 4, 6])):
+        if rng.random() < 0.45:
+            cur_par = rng.choice([p for p in pars if p != cur_par])
+            events.append([t, 'par', cur_par])
+        else:
+            cur_inp = rng.choice([v for v in (0, 1, 2) if v != cur_inp])
+            events.append([t, 'inp', cur_inp])
+        t += rng.choice([40, 60, 100, 100, 150, 300, wlat + 50, 700])
+    return {'function': f, 'expr': expr, 'out_type': out_type, 'out_init': out_init, 'inp': inp, 'par': par, 'wlat': wlat,
+            'tick': tick, 'events': events, 'quiet': 2500 + 3 * max(pars) + 4 * wlat}
+
+
+def run_queue_worker(scenarios, timeout=900):
+    import subprocess
+    import sys as _sys
+    p = subprocess.run([_sys.executable, '-m', 'harness.props.c16_worker'], input=json.dumps(scenarios), capture_output=True,
+                       text=True, timeout=timeout, cwd=coq.VERIF)
+    if p.returncode != 0:
+        raise RuntimeError('c16_worker failed: ' + p.stderr[-800:])
+    return json.loads(p.stdout)
+
+
+def queue_violation(sc, r, name=None):
+    small = r.get('shrunk') or sc
+    g, f = (r.get('shrunk_gated'), r.get('shrunk_forced')) if r.get('shrunk') else (r['gated'], r['forced'])
+    fname = sc.get('function') or sc['expr'][:sc['expr'].index('(')]
+    return {
+        'key': dict(QUEUE_KEY, function=fname),
+        'what': '%sreal output port (driver write takes %d ms) carrying %s, inputs %r then constant for %d ms: the port ends at %r '
+                'under the hub\'s scheduling of evaluations, at %r when an evaluation is forced on every tick'
+                % ('corpus %s: ' % name if name else '', small['wlat'], small['expr'], small['events'], small['quiet'], g, f),
+        'case': dict({k: v for k, v in small.items() if k != 'shrink'}, kind='hub-queue'),
+        'expected': f, 'observed': g,
+    }
+
+
+def queue_compare(ctx, res, n, rng):
+    t0 = time.time()
+    scs = [gen_queue_scenario(rng) for _ in range(n)]
+    try:
+        results = run_queue_worker(scs)
+    except Exception as e:
+        res['tie_failures'].append('real-port stream (c16_worker) did not run: %s' % str(e)[-600:])
+        return
+    seen = set()
+    dist = res['distribution']
+    nerr = 0
+    for sc, r in zip(scs, results):
+        k = 'queue:%s:wlat%d' % (sc['function'], sc['wlat'])
+        dist[k] = dist.get(k, 0) + 1
+        res['evaluations'] += 2
+        if r.get('error'):
+            nerr += 1
+            if nerr <= 3:
+                res['tie_failures'].append('real-port scenario failed to run: %s' % r['error'][-400:])
+            continue
+        if r.get('busy_at_end'):
+            dist['queue:not-quiescent'] = dist.get('queue:not-quiescent', 0) + 1
+        if r.get('differs') and sc['function'] not in seen:
+            seen.add(sc['function'])
+            res['violations'].append(queue_violation(sc, r))
+    ex = res['extra']
+    ex['queue_scenarios'] = ex.get('queue_scenarios', 0) + n
+    ex['queue_wall_s'] = round(ex.get('queue_wall_s', 0) + time.time() - t0, 2)
+
+
 # ---------------------------------------------------------------------------------------------------- corpus / replay
 
 CORPUS = os.path.join(coq.VERIF, 'corpus', 'C16')
@@ -755,6 +848,15 @@ CORPUS = os.path.join(coq.VERIF, 'corpus', 'C16')
 
 def run_corpus_case(ctx, res, j, name):
     kind = j.get('kind')
+    if kind == 'hub-queue':
+        sc = {k: v for k, v in j.items() if k not in ('kind', 'note')}
+        r = run_queue_worker([dict(sc, shrink=False)])[0]
+        res['evaluations'] += 2
+        if r.get('error'):
+            res['tie_failures'].append('corpus %s did not run: %s' % (name, r['error'][-400:]))
+        elif r.get('differs'):
+            res['violations'].append(queue_violation(sc, r, name))
+        return None
     if kind == 'pause':
         install()
         ticks = [(int(now), {p: undescribe(v) for p, v in pv.items()}) for now, pv in j['ticks']]
@@ -838,7 +940,7 @@ def _outcome_distribution(res, observed):
                 dist['paused_evaluations'] = dist.get('paused_evaluations', 0) + 1
 
 
-def run_generated(ctx, res, n_per_fn, n_hub, tag, with_corpus):
+def run_generated(ctx, res, n_per_fn, n_hub, tag, with_corpus, n_queue=0):
     rng = ctx.rng
     items = []
     if with_corpus:
@@ -855,6 +957,8 @@ def run_generated(ctx, res, n_per_fn, n_hub, tag, with_corpus):
     t0 = time.time()
     hub_compare(ctx, res, n_hub, rng)
     res['extra']['hub_wall_s'] = round(res['extra'].get('hub_wall_s', 0) + time.time() - t0, 2)
+    if n_queue:
+        queue_compare(ctx, res, n_queue, rng)
 
 
 def replay(ctx, res):
@@ -875,17 +979,21 @@ def check(ctx, res):
         'outputs, pause deadlines and evaluated $port arguments of the real objects against the Coq model, outputs and evaluated '
         'arguments against the Coq specification of the effective history at every '
         'evaluation; plus tick sequences with rare input changes evaluated on every tick vs. gated by the real '
-        'main.handle_value_changes (top level and nested in ADD/IF/MUL).  distinct = distinct (expression, first six samples); '
+        'main.handle_value_changes (top level and nested in ADD/IF/MUL); plus real ports under the real hub on the virtual clock: '
+        'an output port with a 0-400 ms driver write carrying HELD/FREEZE/DELAY/SAMPLE/DERIV/FMAVG/FMEDIAN of two source ports, 2-6 '
+        'dependency changes clustered around the first writes (so that they land while an evaluation is queued behind a write), '
+        'then quiet: final port value with the hub\'s scheduling vs. an evaluation forced on every tick.  distinct = distinct (expression, first six samples); '
         'non-trivial = at least 8 samples and at least two different signal values')
     if ctx.replay:
         replay(ctx, res)
         return
-    n = ctx.n(1500, 30000)        # thorough: about 25 minutes on this machine (100000 took 79 min)
+    n = ctx.n(1300, 30000)        # thorough: about 25 minutes on this machine (100000 took 79 min)
     # thorough runs are split in rounds to bound memory
     rounds = 1 if n <= 3000 else (n + 2999) // 3000
     per = n // rounds
     for r in range(rounds):
-        run_generated(ctx, res, per, ctx.n(900, 6000) if r == 0 else 0, 'r%d' % r, with_corpus=(r == 0))
+        run_generated(ctx, res, per, ctx.n(900, 6000) if r == 0 else 0, 'r%d' % r, with_corpus=(r == 0),
+                      n_queue=ctx.n(500, 6000) if r == 0 else 0)
         if res['violations']:
             break
     probe_time_in_time(res, ctx.rng)
@@ -893,7 +1001,7 @@ def check(ctx, res):
 
 def search(ctx, res):
     """the proof or the tie broke: look harder for a concrete failing input (spec oracle and end-to-end pause comparison)"""
-    run_generated(ctx, res, ctx.n(1500, 6000), ctx.n(4500, 30000), 'search', with_corpus=False)
+    run_generated(ctx, res, ctx.n(1500, 6000), ctx.n(4500, 30000), 'search', with_corpus=False, n_queue=ctx.n(3000, 12000))
 
 
 REPLAY_HELP = ('bin/check C16 --replay <this file>; kind "pause": parse the expression with expressions.parse("out", text, 1), walk '
